@@ -19,8 +19,8 @@ pub open spec fn dots(s: Seq<u8>) -> nat
 pub open spec fn middle_of(name: Seq<u8>, prefix: Seq<u8>, ext: Seq<u8>) -> Seq<u8> {
     name.subrange(prefix.len() as int, name.len() - ext.len())
 }
-// `name` is  prefix "." a "." b "." c "." ext  with a, b, c free of '.'  (counting form)
-pub open spec fn own_name(name: Seq<u8>, prefix: Seq<u8>, ext: Seq<u8>) -> bool {
+// `name` is  prefix "." a "." b "." c "." ext  with a, b, c free of '.'  (counting form): the SHAPE
+pub open spec fn shape_name(name: Seq<u8>, prefix: Seq<u8>, ext: Seq<u8>) -> bool {
     &&& name.len() >= prefix.len() + ext.len()
     &&& is_prefix(prefix, name)
     &&& is_suffix(ext, name)
@@ -28,6 +28,42 @@ pub open spec fn own_name(name: Seq<u8>, prefix: Seq<u8>, ext: Seq<u8>) -> bool 
         let m = middle_of(name, prefix, ext);
         m.len() >= 2 && m[0] == DOT() && m[m.len() - 1] == DOT() && dots(m) == 4
     })
+}
+// the three segments are what `file_ts` / `file_id` produce (F32: a foreign `app.meeting.notes.draft.log` has the shape)
+pub open spec fn is_dec(b: u8) -> bool { 48 <= b <= 57 }                       // '0'..'9'
+pub open spec fn is_hexl(b: u8) -> bool { is_dec(b) || 97 <= b <= 102 }        // '0'..'9' 'a'..'f'
+pub open spec fn period_byte(b: u8) -> bool { is_dec(b) || b == 45 }           // digits and '-'
+pub open spec fn period_ok(a: Seq<u8>) -> bool { a.len() > 0 && forall|j: int| 0 <= j < a.len() ==> period_byte(#[trigger] a[j]) }
+pub open spec fn millis_ok(b: Seq<u8>) -> bool { b.len() >= 8 && forall|j: int| 0 <= j < b.len() ==> is_dec(#[trigger] b[j]) }
+pub open spec fn id_ok(c: Seq<u8>) -> bool { c.len() == 8 && forall|j: int| 0 <= j < c.len() ==> is_hexl(#[trigger] c[j]) }
+// the position of the next '.' at or after `from` (`from` itself beyond the end)
+pub open spec fn next_dot(m: Seq<u8>, from: int) -> int
+    decreases m.len() - from
+{
+    if from < 0 || from >= m.len() { from } else if m[from] == DOT() { from } else { next_dot(m, from + 1) }
+}
+// m = "." period "." millis "." id "."
+pub open spec fn strict_segments(m: Seq<u8>) -> bool {
+    let e1 = next_dot(m, 1);
+    let e2 = next_dot(m, e1 + 1);
+    let e3 = next_dot(m, e2 + 1);
+    &&& e3 + 1 == m.len()
+    &&& period_ok(m.subrange(1, e1)) && millis_ok(m.subrange(e1 + 1, e2)) && id_ok(m.subrange(e2 + 1, e3))
+}
+// MEMBERSHIP: the shape, and the segments of the naming scheme
+pub open spec fn own_name(name: Seq<u8>, prefix: Seq<u8>, ext: Seq<u8>) -> bool {
+    shape_name(name, prefix, ext) && strict_segments(middle_of(name, prefix, ext))
+}
+proof fn lemma_next_dot(m: Seq<u8>, from: int)
+    requires 0 <= from
+    ensures
+        from <= next_dot(m, from),
+        from < m.len() ==> next_dot(m, from) <= m.len(),
+        next_dot(m, from) < m.len() ==> m[next_dot(m, from)] == DOT(),
+        forall|j: int| from <= j < next_dot(m, from) && j < m.len() ==> m[j] != DOT(),
+    decreases m.len() - from
+{
+    if from < m.len() && m[from] != DOT() { lemma_next_dot(m, from + 1); }
 }
 
 // one more byte: the count grows iff it is a '.'
@@ -38,6 +74,7 @@ proof fn lemma_dots_step(s: Seq<u8>, i: int)
     assert(s.subrange(0, i + 1).drop_last() =~= s.subrange(0, i));
 }
 
+#[verifier::loop_isolation(false)]
 //@extract emitter/file/src/lib.rs / fn is_file_set_member
 //@rules R1 R2
 //@ret r
@@ -49,6 +86,7 @@ proof fn lemma_dots_step(s: Seq<u8>, i: int)
         r == own_name(file_name.spec_bytes(), file_prefix.spec_bytes(), file_ext.spec_bytes()),
 //@after let middle
     assert(middle@ =~= middle_of(file_name@, file_prefix@, file_ext@));
+    let ghost m = middle@;
 //@loop 0
         invariant
             0 <= i <= middle@.len(),
@@ -58,10 +96,68 @@ proof fn lemma_dots_step(s: Seq<u8>, i: int)
         decreases middle@.len() - i
 //@inside-start while
         proof { lemma_dots_step(middle@, i as int); }
-//@before while
-    #[verifier::loop_isolation(false)]
 //@after while
     assert(middle@.subrange(0, i as int) =~= middle@);
+// the three segment scans: each stops ON the next '.', having seen only bytes of the segment's class
+//@after let ts_len
+    let ghost e1 = next_dot(m, 1);
+    proof { lemma_next_dot(m, 1); }
+//@loop 1
+        invariant
+            1 <= i <= e1 <= m.len(), m.len() <= i32::MAX, m.len() >= 2,
+            ts_len == i - 1,
+            forall|j: int| 1 <= j < i ==> period_byte(#[trigger] m[j]),
+        decreases m.len() - i
+//@inside-start while#1
+        proof {
+            if i as int == e1 { assert(false); }
+            assert(m.subrange(1, e1)[i as int - 1] == m[i as int]);
+        }
+//@after let millis_len
+    let ghost s2 = i as int;
+    let ghost e2 = next_dot(m, s2);
+    proof {
+        assert(i == e1 + 1);
+        lemma_next_dot(m, s2);
+        assert forall|j: int| 0 <= j < m.subrange(1, e1).len() implies period_byte(#[trigger] m.subrange(1, e1)[j]) by { assert(period_byte(m[j + 1])); }
+    }
+//@loop 2
+        invariant
+            s2 <= i <= e2, (s2 < m.len() ==> e2 <= m.len()), m.len() <= i32::MAX,
+            millis_len == i - s2,
+            forall|j: int| s2 <= j < i ==> is_dec(#[trigger] m[j]),
+        decreases m.len() - i
+//@inside-start while#2
+        proof {
+            if i as int == e2 { assert(false); }
+            assert(m.subrange(s2, e2)[i as int - s2] == m[i as int]);
+        }
+//@after let id_len
+    let ghost s3 = i as int;
+    let ghost e3 = next_dot(m, s3);
+    proof {
+        assert(i == e2 + 1);
+        lemma_next_dot(m, s3);
+        assert forall|j: int| 0 <= j < m.subrange(s2, e2).len() implies is_dec(#[trigger] m.subrange(s2, e2)[j]) by { assert(is_dec(m[j + s2])); }
+    }
+//@loop 3
+        invariant
+            s3 <= i <= e3, (s3 < m.len() ==> e3 <= m.len()), m.len() <= i32::MAX,
+            id_len == i - s3,
+            forall|j: int| s3 <= j < i ==> is_hexl(#[trigger] m[j]),
+        decreases m.len() - i
+//@inside-start while#3
+        proof {
+            if i as int == e3 { assert(false); }
+            assert(m.subrange(s3, e3)[i as int - s3] == m[i as int]);
+        }
+//@after while#3
+    proof {
+        assert(i == e3);
+        if e3 <= m.len() {
+            assert forall|j: int| 0 <= j < m.subrange(s3, e3).len() implies is_hexl(#[trigger] m.subrange(s3, e3)[j]) by { assert(is_hexl(m[j + s3])); }
+        }
+    }
 //@end
 
 // ---- what membership means, and why two file sets never share a name ----
@@ -118,7 +214,24 @@ proof fn lemma_first_dot(s: Seq<u8>) -> (i: int)
 pub open spec fn dot() -> Seq<u8> { seq![DOT()] }
 pub open spec fn has_shape(name: Seq<u8>, prefix: Seq<u8>, ext: Seq<u8>, a: Seq<u8>, b: Seq<u8>, c: Seq<u8>) -> bool {
     dots(a) == 0 && dots(b) == 0 && dots(c) == 0
+    // a is a period (digits and '-'), b a counter of at least 8 digits, c an id of exactly 8 lower-case hex digits
+    && period_ok(a) && millis_ok(b) && id_ok(c)
     && name =~= prefix + dot() + a + dot() + b + dot() + c + dot() + ext
+}
+// the next '.' is at e when e holds one and nothing before it does
+proof fn lemma_next_dot_at(m: Seq<u8>, from: int, e: int)
+    requires 0 <= from <= e < m.len(), m[e] == DOT(), forall|j: int| from <= j < e ==> m[j] != DOT()
+    ensures next_dot(m, from) == e
+    decreases e - from
+{
+    if from < e { lemma_next_dot_at(m, from + 1, e); }
+}
+proof fn lemma_no_dots(b: Seq<u8>)
+    requires forall|i: int| 0 <= i < b.len() ==> b[i] != DOT()
+    ensures dots(b) == 0
+    decreases b.len()
+{
+    if b.len() > 0 { lemma_no_dots(b.drop_last()); }
 }
 pub open spec fn own_shape(name: Seq<u8>, prefix: Seq<u8>, ext: Seq<u8>) -> bool {
     exists|a: Seq<u8>, b: Seq<u8>, c: Seq<u8>| has_shape(name, prefix, ext, a, b, c)
@@ -138,6 +251,20 @@ proof fn lemma_shape_is_own(name: Seq<u8>, prefix: Seq<u8>, ext: Seq<u8>, a: Seq
     lemma_dots_concat(dot() + a + dot() + b, dot());
     lemma_dots_concat(dot() + a + dot() + b + dot(), c);
     lemma_dots_concat(dot() + a + dot() + b + dot() + c, dot());
+    // the segments: the dots of m sit at 0, 1+|a|, 2+|a|+|b|, 3+|a|+|b|+|c| and nowhere else
+    let e1 = 1 + a.len() as int;
+    let e2 = e1 + 1 + b.len();
+    let e3 = e2 + 1 + c.len();
+    assert forall|j: int| 1 <= j < e1 implies m[j] != DOT() by { assert(m[j] == a[j - 1]); assert(period_byte(a[j - 1])); }
+    assert forall|j: int| e1 + 1 <= j < e2 implies m[j] != DOT() by { assert(m[j] == b[j - e1 - 1]); assert(is_dec(b[j - e1 - 1])); }
+    assert forall|j: int| e2 + 1 <= j < e3 implies m[j] != DOT() by { assert(m[j] == c[j - e2 - 1]); assert(is_hexl(c[j - e2 - 1])); }
+    assert(m[e1] == DOT() && m[e2] == DOT() && m[e3] == DOT() && m.len() == e3 + 1);
+    lemma_next_dot_at(m, 1, e1);
+    lemma_next_dot_at(m, e1 + 1, e2);
+    lemma_next_dot_at(m, e2 + 1, e3);
+    assert(m.subrange(1, e1) =~= a);
+    assert(m.subrange(e1 + 1, e2) =~= b);
+    assert(m.subrange(e2 + 1, e3) =~= c);
 }
 
 proof fn lemma_split_at(s: Seq<u8>, i: int)
@@ -200,10 +327,21 @@ proof fn lemma_own_is_shape(name: Seq<u8>, prefix: Seq<u8>, ext: Seq<u8>)
 {
     let m = middle_of(name, prefix, ext);
     lemma_name_parts(name, prefix, ext);
-    let inner = lemma_strip_ends(m);        // m = "." inner ".", two '.' left in inner
-    let (a, rest) = lemma_split_first(inner);
-    let (b, c) = lemma_split_first(rest);
-    lemma_assemble(name, prefix, ext, m, inner, rest, a, b, c);
+    let e1 = next_dot(m, 1);
+    let e2 = next_dot(m, e1 + 1);
+    let e3 = next_dot(m, e2 + 1);
+    lemma_next_dot(m, 1);
+    lemma_next_dot(m, e1 + 1);
+    lemma_next_dot(m, e2 + 1);
+    let (a, b, c) = (m.subrange(1, e1), m.subrange(e1 + 1, e2), m.subrange(e2 + 1, e3));
+    assert(m =~= dot() + a + dot() + b + dot() + c + dot());
+    assert forall|i: int| 0 <= i < a.len() implies a[i] != DOT() by { assert(period_byte(a[i])); }
+    assert forall|i: int| 0 <= i < b.len() implies b[i] != DOT() by { assert(is_dec(b[i])); }
+    assert forall|i: int| 0 <= i < c.len() implies c[i] != DOT() by { assert(is_hexl(c[i])); }
+    lemma_no_dots(a); lemma_no_dots(b); lemma_no_dots(c);
+    assert(name =~= prefix + dot() + a + dot() + b + dot() + c + dot() + ext) by {
+        assert(prefix + m + ext =~= prefix + dot() + a + dot() + b + dot() + c + dot() + ext);
+    }
     assert(has_shape(name, prefix, ext, a, b, c));
 }
 
